@@ -194,7 +194,7 @@ def build(tier, work, builder):
     gen.append("static void run_all_cases(void)\n{")
     for k, (pat, act, b0) in enumerate(rules):
         rx = re.compile(flex_to_re(pat))
-        for n in range(1, 6):
+        for n in range(1, (8 if tier == "thorough" else 6)):
             for tup in itertools.product(alpha, repeat=n):
                 s = "".join(tup)
                 if rx.fullmatch(s):
@@ -214,7 +214,7 @@ def build(tier, work, builder):
     #      the c06.reader.* obligations switched on instead of the c04.* ones)
     from checks import C04
     w4 = os.path.join(work, "c04"); os.makedirs(w4, exist_ok=True)
-    xj, xs = C04.reader_jobs(w4, builder, for_c06=True)
+    xj, xs = C04.reader_jobs(w4, builder, for_c06=True, tier=tier)
     jobs += xj
     slices += xs
     return {
